@@ -100,3 +100,23 @@ Theorem C18_published_in_the_closure_refuted :
   /\ seen_by KHandler [KChain; KPublish; KHandler] false = Some true.
 Proof. exact published_in_the_closure_refuted. Qed.
 Print Assumptions C18_published_in_the_closure_refuted.
+
+(** An OR of alternatives that name one scheme with scope lists of their own: every (alternative, scheme) pair is described
+    in document order, so the scheme's key holds the scopes of the LAST alternative that names it, whatever precedes it
+    (the schemes of a requirement object are the keys of a map: distinct; no other scheme shares the key).  Describing a
+    scheme for the first alternative only is refuted on a two-alternative list. *)
+Theorem C18_last_alternative_wins : forall (key_of : string -> string) before r after s,
+  NoDup (map fst r) -> In s (map fst r) ->
+  (forall k, In k (map fst r) -> k <> s -> key_of k <> key_of s) ->
+  (forall r' k, In r' after -> In k (map fst r') -> key_of k <> key_of s) ->
+  ctx_get (publish key_of (describe (before ++ r :: after))) (key_of s) = Some (lookup_scopes r s).
+Proof. exact last_alternative_wins. Qed.
+Print Assumptions C18_last_alternative_wins.
+
+Theorem C18_first_alternative_refuted :
+  let alts := [[("oauth", ["reports:read"])]; [("oauth", ["reports:write"; "admin"]); ("apiKey", [])]] in
+  let key := fun s => s ++ "Scopes" in
+  ctx_get (publish key (describe alts)) "oauthScopes" = Some ["reports:write"; "admin"]
+  /\ ctx_get (publish key (dedupe_first [] (describe alts))) "oauthScopes" = Some ["reports:read"].
+Proof. exact first_alternative_refuted. Qed.
+Print Assumptions C18_first_alternative_refuted.
